@@ -272,6 +272,8 @@ pub mod message;
 mod rustls_crypto;
 mod time;
 pub mod transport;
+#[cfg(feature = "verif-hooks")]
+pub mod verif_hooks;
 
 use std::error::Error as StdError;
 
